@@ -137,7 +137,8 @@ Section Proofs.
   Proof.
     intros. unfold Asm.assemble, Asm.resolve in H.
     apply bind_ok in H as ([sm1 cm1] & R & H).
-    apply bind_ok in R as (cm2 & C & R). apply bind_ok in R as ([sm0 pc] & W & R).
+    apply bind_ok in R as (cm2 & C & R). apply bind_ok in R as (u & _ & R).
+    apply bind_ok in R as ([sm0 pc] & W & R).
     apply bind_ok in R as (sm3 & A & R). inv R.
     apply bind_ok in H as (b & E & H). inv H. eauto 8.
   Qed.
@@ -332,8 +333,6 @@ Section Proofs.
         destruct pend; [| discriminate W].
         cbn in Ei. rewrite jumpdest_byte in Ei. inv Ei. cbn. left. reflexivity.
       + inv S.
-        (* data items cannot precede a label *)
-        assert (forall x, In x (scan pend (bi ++ br) pc) \/ True) as _ by auto.
         destruct pend as [| pd].
         * destruct it'; cbn [wf_code] in W; try discriminate W.
           -- (* IOp *)
